@@ -176,11 +176,30 @@ def ts_texts(part, nparts, slice_=None):
                             for s in secs:
                                 for fi, f in enumerate(fracs):
                                     for zi, z in enumerate(zones):
-                                        if slice_ is not None and (fi + zi) % 5 != slice_ and not (fi == 0 or zi == 0):
+                                        if slice_ is not None and (fi + zi + len(h) + len(sep)) % 12 != slice_ and not (fi == 0 and zi == 0):
                                             continue
                                         if y != '2001' and (fi > 2 or zi > 3):
                                             continue
                                         yield '%s:%s:%s%s%s' % (base, mi, s, f, z)
+
+
+def number_texts():
+    """generated members (and near misses) of the numeric productions: sign x [base prefix] x sexagesimal groups x fraction x exponent"""
+    out = []
+    signs = ['', '+', '-']
+    heads = ['0', '1', '59', '60', '190', '1_0', '01']
+    groups = ['0', '5', '30', '59', '60', '05', '7_']
+    fracs = [None, '', '0', '15', '1_5', '5e3']
+    for sg in signs:
+        for h in heads:
+            for g in [()] + [(a,) for a in groups] + [(a, b) for a in groups for b in groups]:
+                for f in fracs:
+                    out.append(sg + h + ''.join(':' + x for x in g) + ('' if f is None else '.' + f))
+        for body in ['0x1F', '0x_1f', '0X1f', '0b101', '0b1_0', '0b2', '017', '018', '0o17', '0_7', '1e5', '1e+5', '1.5e+5', '1.5E-5', '1.5e5', '1_0.5_0e+1_0', '.5', '.5e+3', '._5', '.inf', '.Inf',
+                     '.INF', '.iNF', '.nan', '.NaN', '.NAN', '1__0', '_1', '1_', '0.', '00', '0:0', '0:00:00.000', '1:2:3:4:5', '1:', ':1', '1::2', '1:2.3.4', '9:99']:
+            out.append(sg + body)
+    seen = set()
+    return [t for t in out if not (t in seen or seen.add(t))]
 
 
 def int_grid():
@@ -255,7 +274,7 @@ def check_value(T, v):
 def plan(tier, seed):
     q = tier == 'quick'
     jobs = []
-    jobs += [('ts', k, 36, (seed % 5) if q else None) for k in range(36)]
+    jobs += [('ts', k, 36, (seed % 12) if q else None) for k in range(36)]
     jobs += gen.string_jobs('str', len(SIGMA), 4 if q else 5, plen=2)
     if q:
         allj = gen.string_jobs('str', len(SIGMA), 5, plen=2, minlen=5)
@@ -263,6 +282,7 @@ def plan(tier, seed):
     jobs += [('kw', w) for w in KEYWORDS]
     jobs += [('first', k, 16) for k in range(16)]
     jobs += [('values', k, 32) for k in range(32)]
+    jobs += [('numbers', k, 8) for k in range(8)]
     return jobs
 
 
@@ -301,6 +321,13 @@ def run_job(job, T):
             if T.trace: T.begin({'text': s})
             check_text(T, 'timestamps', s, dump=False)
         T.sample('timestamps', {'text': s})
+    elif kind == 'numbers':
+        for i, s in enumerate(number_texts()):
+            if i % job[2] != job[1]:
+                continue
+            if T.trace: T.begin({'text': s})
+            check_text(T, 'numbers', s)
+        T.sample('numbers', {'text': s})
     elif kind == 'values':
         for v in value_grid(job[1], job[2]):
             check_value(T, v)
